@@ -265,7 +265,7 @@ pub fn run(ctx: &Ctx) {
     let subs = subs();
     let p = DocParams { ws: 2, multiline: true, max_depth: 4, max_items: 5, allow_inf: true, allow_lone_surrogates: true, ..DocParams::default() };
     let pc = p.clone();
-    ctx.search(&subs[0], "mutated", ctx.n(60_000, 1_000_000), 500, &move |src: &mut Src| {
+    ctx.search(&subs[0], "mutated", ctx.n(300_000, 2_400_000), 500, &move |src: &mut Src| {
         let d = gens::gen_doc(src, &pc);
         let mut m = gens::mutate(src, &d).0;
         if src.chance(60) {
@@ -275,7 +275,7 @@ pub fn run(ctx: &Ctx) {
     });
     // typed targets: pretty-printed values of the family, damaged
     const TYPED: &[usize] = &[34, 35, 36, 37, 38, 39, 40, 41, 42, 43, 45, 48, 26, 27, 21, 22, 0, 14];
-    ctx.search(&subs[2], "typed", ctx.n(60_000, 1_000_000), 400, &|src: &mut Src| {
+    ctx.search(&subs[2], "typed", ctx.n(300_000, 2_400_000), 400, &|src: &mut Src| {
         let idx = *src.pick(TYPED);
         let mut v = PrettyVisitor { src, out: Vec::new() };
         dispatch(idx, &mut v);
@@ -290,7 +290,7 @@ pub fn run(ctx: &Ctx) {
     // long multi-line inputs: several hundred to a few thousand bytes of short lines in front of the
     // damaged part, so that error offsets are large and many newlines share a 32/64-byte block
     let pc = p.clone();
-    ctx.search(&subs[3], "long", ctx.n(30_000, 400_000), 400, &move |src: &mut Src| {
+    ctx.search(&subs[3], "long", ctx.n(150_000, 1_200_000), 400, &move |src: &mut Src| {
         let d = gens::gen_doc(src, &DocParams { max_items: 3, max_depth: 3, long_strings: false, ..pc.clone() });
         let mut m = gens::mutate(src, &d).0;
         if src.chance(40) {
@@ -311,7 +311,7 @@ pub fn run(ctx: &Ctx) {
     });
     // invalid UTF-8 inside strings in front of a later defect (lossy mode repairs the strings)
     let pc = p.clone();
-    ctx.search(&subs[4], "lossy", ctx.n(30_000, 400_000), 400, &move |src: &mut Src| {
+    ctx.search(&subs[4], "lossy", ctx.n(150_000, 1_200_000), 400, &move |src: &mut Src| {
         let d = gens::gen_container_doc(src, &pc);
         // break 1..3 string literals with invalid sequences
         let mut out = d.clone();
